@@ -14,7 +14,7 @@ import (
 func init() {
 	register(&Property{
 		ID:    "C09",
-		Rules: []string{"C09-R1", "C09-R2", "C09-R3", "C09-R4", "C09-R5", "C09-R6", "C09-R7", "C09-R8", "C10-R2", "C10-R3", "C17-R4"},
+		Rules: []string{"C09-R1", "C09-R2", "C09-R3", "C09-R4", "C09-R5", "C09-R6", "C09-R7", "C09-R8", "C10-R2", "C10-R3", "C10-R4", "C17-R4"},
 		Explain: "Decides how malformed entries reach the user: C10-R3 (shared) no consumer stops the walk early without an error, so no malformed line further down goes unread; C09-R1 the line number is a loop-carried counter with 0 on entry and the same φ+1 on every back edge of the Scan loop (so blank, comment and note lines are counted); " +
 			"C09-R2 the quoted line is the raw Scanner.Text() result; C09-R3 every ParseCallback of the tree, given an error, stops with an error deriving from it or prints it and continues; " +
 			"C09-R4 lint writes its success message exactly when no malformed line was reported (and not silent); " +
@@ -26,6 +26,7 @@ func init() {
 		NotDecided: "the wording of the messages beyond containing the line and its number, and the arithmetic of what counts as a number (strconv.ParseFloat)",
 		Run: func(c *core.Ctx) {
 			ruleLineCounter(c, "C09-R1")
+			ruleScannerSetup(c, "C10-R4") // what a line is (and so its number) is decided by bufio.ScanLines on the reader as handed over
 			analyseParserLoop(c, map[string]bool{"C09-R2": true, "C09-R5": true, "C09-R7": true})
 			ruleCallbackConsumers(c, map[string]bool{"C09-R3": true, "C10-R3": true}) // a consumer that stops early without an error never reads the malformed lines further down
 			ruleLintVerdict(c, "C09-R4")
